@@ -18,6 +18,17 @@
 (*          successfully since: the only keys that may be stale            *)
 (*   clk    seconds; one second = one tick of the cleaner's timing wheel   *)
 (*          = one second of Redis expiry time                              *)
+(*   cfg    how the expiry options were configured (each one unset, or set  *)
+(*          to a possibly non-positive number of seconds) and e, nf: the    *)
+(*          expiry in effect -- the configured value if it is positive,    *)
+(*          the default (DefE / DefNF) otherwise                           *)
+(*                                                                         *)
+(* Writes (Exec, DelCache) carry the caller's context `cx`: the background  *)
+(* context, one that is cancelled as soon as the call has returned, or one  *)
+(* whose deadline passes before the first background retry.  The context    *)
+(* is an argument of the operation only: nothing in the next state depends  *)
+(* on it (CtxFree), in particular not the retry ladder of a removal that    *)
+(* failed during the call.                                                  *)
 (*                                                                         *)
 (* All operations are written as pure functions  state -> [s, out fields]  *)
 (* so that the generator (CacheAsideGen) can chain several of them in one  *)
@@ -36,8 +47,11 @@ CONSTANTS Ids,       \* primary ids (positive integers)
           Datas,     \* payloads
           Nodes,     \* Redis nodes
           Place,     \* [Keys -> Nodes]
-          E,         \* configured expiry (s)
-          NF,        \* configured not-found expiry (s)
+          Cfgs,      \* configurations explored: [e |-> opt, nf |-> opt], opt = [set |-> BOOLEAN, v |-> Int]
+                     \* (option not given / given with v seconds, v possibly zero or negative)
+          DefE,      \* expiry in effect when none (or a non-positive one) is configured (s)
+          DefNF,     \* same for the not-found placeholder (s)
+          Ctxs,      \* subset of {"bg", "cancel", "deadline"}: caller contexts offered to writes
           Gap,       \* safety gap between index and primary entry (5 s)
           Ladder,    \* retry delays in seconds, e.g. <<1, 5, 60, 300, 3600>>
           Jits,      \* subset of {"lo", "mid", "hi"}: jitter choices explored
@@ -67,7 +81,12 @@ Lo(b) == (b * 95 + 99) \div 100      \* ceil(0.95 b): the TTL is rounded up to w
 Hi(b) == (b * 105 + 99) \div 100     \* ceil(1.05 b)
 TTLof(j, b) == CASE j = "hi" -> Hi(b) [] j = "mid" -> b [] j = "lo" -> Lo(b)
 
-ASSUME /\ E >= 1 /\ NF >= 1
+\* the expiry in effect: a configured value counts only if it is positive
+Eff(opt, def) == IF opt.set /\ opt.v > 0 THEN opt.v ELSE def
+
+ASSUME /\ DefE >= 1 /\ DefNF >= 1
+       /\ \A c \in Cfgs : c.e.set \in BOOLEAN /\ c.nf.set \in BOOLEAN /\ c.e.v \in Int /\ c.nf.v \in Int
+       /\ Ctxs # {} /\ Ctxs \subseteq {"bg", "cancel", "deadline"}
        /\ \A r \in 1..(Len(Ladder) - 1) : Ladder[r] < Ladder[r + 1]     \* "increasing delays"
        /\ Len(Ladder) >= 1 /\ Ladder[1] >= 1
 
@@ -88,12 +107,12 @@ TakeP(st, i) ==
      ELSE IF c.kind = "nf"
        THEN [s |-> st, res |-> "nf", row |-> NoRowOut, qp |-> 0, sets |-> {}]
      ELSE IF st.db[i] = NoRow
-       THEN [s |-> [st EXCEPT !.cache[k] = NfEntry(st.clk + TTLof(st.jit, NF))],
+       THEN [s |-> [st EXCEPT !.cache[k] = NfEntry(st.clk + TTLof(st.jit, st.nf))],
              res |-> "nf", row |-> NoRowOut, qp |-> 1,
-             sets |-> {[k |-> k, ttl |-> TTLof(st.jit, NF), base |-> NF, gap |-> 0]}]
-       ELSE [s |-> [st EXCEPT !.cache[k] = RowEntry(i, st.db[i], st.clk + TTLof(st.jit, E))],
+             sets |-> {[k |-> k, ttl |-> TTLof(st.jit, st.nf), base |-> st.nf, gap |-> 0]}]
+       ELSE [s |-> [st EXCEPT !.cache[k] = RowEntry(i, st.db[i], st.clk + TTLof(st.jit, st.e))],
              res |-> "row", row |-> RowOut(i, st.db[i]), qp |-> 1,
-             sets |-> {[k |-> k, ttl |-> TTLof(st.jit, E), base |-> E, gap |-> 0]}]
+             sets |-> {[k |-> k, ttl |-> TTLof(st.jit, st.e), base |-> st.e, gap |-> 0]}]
 
 QueryRowF(st, i) ==
   LET r == TakeP(st, i)
@@ -116,12 +135,12 @@ QueryIndexF(st, n) ==
                         loose |-> (k \in st.dirty \/ PK(c.id) \in st.dirty), sets |-> r.sets]
      ELSE LET ids == RowByName(st.db, n)
           IN IF ids = {}
-               THEN base @@ [s |-> [st EXCEPT !.cache[k] = NfEntry(st.clk + TTLof(st.jit, NF))],
+               THEN base @@ [s |-> [st EXCEPT !.cache[k] = NfEntry(st.clk + TTLof(st.jit, st.nf))],
                              res |-> "nf", row |-> NoRowOut, qp |-> 0, qi |-> 1, loose |-> (k \in st.dirty),
-                             sets |-> {[k |-> k, ttl |-> TTLof(st.jit, NF), base |-> NF, gap |-> 0]}]
+                             sets |-> {[k |-> k, ttl |-> TTLof(st.jit, st.nf), base |-> st.nf, gap |-> 0]}]
                ELSE LET i  == CHOOSE x \in ids : TRUE
                         pk == PK(i)
-                        t  == TTLof(st.jit, E)
+                        t  == TTLof(st.jit, st.e)
                     IN IF ~st.up[Place[pk]]
                          \* the row cannot be stored under its primary key: the cache failure is
                          \* returned, nothing is remembered
@@ -131,8 +150,8 @@ QueryIndexF(st, n) ==
                                                         !.cache[k] = PkEntry(i, st.clk + t)],
                                        res |-> "row", row |-> RowOut(i, st.db[i]), qp |-> 0, qi |-> 1,
                                        loose |-> (k \in st.dirty),
-                                       sets |-> {[k |-> pk, ttl |-> t + Gap, base |-> E, gap |-> Gap],
-                                                 [k |-> k, ttl |-> t, base |-> E, gap |-> 0]}]
+                                       sets |-> {[k |-> pk, ttl |-> t + Gap, base |-> st.e, gap |-> Gap],
+                                                 [k |-> k, ttl |-> t, base |-> st.e, gap |-> 0]}]
 
 (* ---------------------------------------------------------------- removals *)
 
@@ -153,9 +172,9 @@ DelKeysF(st, ks) ==
       dels |-> {[node |-> nd, keys |-> grp(nd)] : nd \in okN},
       failed |-> (badN # {})]
 
-DelCacheF(st, ks) ==
+DelCacheF(st, ks, cx) ==
   LET r == DelKeysF(st, ks)
-  IN [s |-> r.s, op |-> "delcache", keys |-> ks, res |-> "ok", row |-> NoRowOut, qp |-> 0, qi |-> 0,
+  IN [s |-> r.s, op |-> "delcache", cx |-> cx, keys |-> ks, res |-> "ok", row |-> NoRowOut, qp |-> 0, qi |-> 0,
       loose |-> FALSE, sets |-> {}, dels |-> r.dels]
 
 \* keys named by a write of row i: its primary key, the index key of its old and of its new name
@@ -163,22 +182,22 @@ Affected(st, i, new) ==
   {PK(i)} \cup (IF st.db[i] # NoRow THEN {IK(st.db[i].name)} ELSE {})
           \cup (IF new # NoRow THEN {IK(new.name)} ELSE {})
 
-\* Exec: write the database, then remove the affected keys
-ExecF(st, i, new) ==
+\* Exec: write the database, then remove the affected keys (cx: the caller's context, see above)
+ExecF(st, i, new, cx) ==
   LET ks == Affected(st, i, new)
       r  == DelKeysF([st EXCEPT !.db[i] = new], ks)
-  IN [s |-> r.s, op |-> IF new = NoRow THEN "delete" ELSE "put", id |-> i, name |-> new.name, data |-> new.data,
+  IN [s |-> r.s, op |-> IF new = NoRow THEN "delete" ELSE "put", cx |-> cx, id |-> i, name |-> new.name, data |-> new.data,
       keys |-> ks, res |-> "ok", row |-> NoRowOut, qp |-> 0, qi |-> 0, loose |-> FALSE, sets |-> {}, dels |-> r.dels]
 
 \* SetCache(PK(i), current row of i)
 SetCacheF(st, i) ==
   LET k == PK(i)
-      t == TTLof(st.jit, E)
+      t == TTLof(st.jit, st.e)
       base == [op |-> "setcache", id |-> i, row |-> NoRowOut, qp |-> 0, qi |-> 0, loose |-> FALSE, dels |-> {}]
   IN IF ~st.up[Place[k]]
        THEN base @@ [s |-> st, res |-> "cacheerr", sets |-> {}]
        ELSE base @@ [s |-> [st EXCEPT !.cache[k] = RowEntry(i, st.db[i], st.clk + t)], res |-> "ok",
-                     sets |-> {[k |-> k, ttl |-> t, base |-> E, gap |-> 0]}]
+                     sets |-> {[k |-> k, ttl |-> t, base |-> st.e, gap |-> 0]}]
 
 (* ---------------------------------------------------------------- time *)
 
@@ -225,9 +244,9 @@ ValidPut(st, i, r) == /\ r # st.db[i]
 OpsOf(st) ==
        {[op |-> "qrow", id |-> i] : i \in Ids}
   \cup {[op |-> "qindex", name |-> n] : n \in Names}
-  \cup UNION {{[op |-> "put", id |-> i, row |-> r] : r \in {x \in NewRows : ValidPut(st, i, x)}} : i \in Ids}
-  \cup {[op |-> "delete", id |-> i] : i \in {x \in Ids : st.db[x] # NoRow}}
-  \cup {[op |-> "delcache", k |-> k] : k \in Keys}
+  \cup UNION {{[op |-> "put", id |-> i, row |-> r, cx |-> c] : r \in {x \in NewRows : ValidPut(st, i, x)}, c \in Ctxs} : i \in Ids}
+  \cup {[op |-> "delete", id |-> i, cx |-> c] : i \in {x \in Ids : st.db[x] # NoRow}, c \in Ctxs}
+  \cup {[op |-> "delcache", k |-> k, cx |-> c] : k \in Keys, c \in Ctxs}
   \cup {[op |-> "setcache", id |-> i] : i \in {x \in Ids : st.db[x] # NoRow}}
   \cup {[op |-> "adv", n |-> n] : n \in Adv}
   \cup {[op |-> IF st.up[nd] THEN "down" ELSE "up", node |-> nd] : nd \in Nodes}
@@ -235,19 +254,19 @@ OpsOf(st) ==
 StepOf(st, o) ==
   CASE o.op = "qrow"     -> QueryRowF(st, o.id)
     [] o.op = "qindex"   -> QueryIndexF(st, o.name)
-    [] o.op = "put"      -> ExecF(st, o.id, o.row)
-    [] o.op = "delete"   -> ExecF(st, o.id, NoRow)
-    [] o.op = "delcache" -> DelCacheF(st, {o.k})
+    [] o.op = "put"      -> ExecF(st, o.id, o.row, o.cx)
+    [] o.op = "delete"   -> ExecF(st, o.id, NoRow, o.cx)
+    [] o.op = "delcache" -> DelCacheF(st, {o.k}, o.cx)
     [] o.op = "setcache" -> SetCacheF(st, o.id)
     [] o.op = "adv"      -> AdvanceF(st, o.n)
     [] o.op = "down"     -> SetUpF(st, o.node, FALSE)
     [] o.op = "up"       -> SetUpF(st, o.node, TRUE)
 
-InitState(db, j) ==
+InitState(db, j, c) ==
   [db |-> db, cache |-> [k \in Keys |-> Absent], up |-> [nd \in Nodes |-> TRUE], dirty |-> {}, tasks |-> {},
-   clk |-> 0, nfail |-> 0, jit |-> j]
+   clk |-> 0, nfail |-> 0, jit |-> j, cfg |-> c, e |-> Eff(c.e, DefE), nf |-> Eff(c.nf, DefNF)]
 
-Init == /\ \E db \in InitDBs, j \in Jits : s = InitState(db, j)
+Init == /\ \E db \in InitDBs, j \in Jits, c \in Cfgs : s = InitState(db, j, c)
         /\ out = [op |-> "init", res |-> "ok", row |-> NoRowOut, qp |-> 0, qi |-> 0, loose |-> FALSE,
                   sets |-> {}, dels |-> {}]
 
@@ -271,6 +290,9 @@ TypeOK ==
   /\ \A k \in PKeys : s.cache[k].kind \in {"none", "row", "nf"}
   /\ \A k \in IKeys : s.cache[k].kind \in {"none", "pk", "nf"}
   /\ s.dirty \subseteq Keys
+  /\ s.cfg \in Cfgs /\ s.e >= 1 /\ s.nf >= 1
+  /\ (s.cfg.e.set /\ s.cfg.e.v >= 1) => s.e = s.cfg.e.v
+  /\ (s.cfg.nf.set /\ s.cfg.nf.v >= 1) => s.nf = s.cfg.nf.v
   /\ \A t \in s.tasks : t.due > s.clk /\ t.rung \in 1..Len(Ladder) /\ t.keys # {}
 
 TruthP(db, i) == IF db[i] = NoRow THEN [res |-> "nf", row |-> NoRowOut] ELSE [res |-> "row", row |-> RowOut(i, db[i])]
@@ -309,8 +331,17 @@ NoFallThrough ==
      /\ (out'.op = "qindex" /\ ~s.up[Place[IK(out'.name)]]) => out'.res = "cacheerr" /\ out'.qp = 0 /\ out'.qi = 0
      /\ (out'.res = "cacheerr" /\ out'.op \in {"qrow", "qindex"}) => out'.qp = 0]_vars
 
-\* stored TTLs: configured expiry +-5 % (plus the safety gap for the primary entry written by an index read)
-TTLRange == \A x \in out.sets : x.ttl - x.gap \in Lo(x.base)..Hi(x.base)
+\* stored TTLs: configured expiry +-5 % (plus the safety gap for the primary entry written by an index read);
+\* whatever the configuration, an entry is never stored without an expiry
+TTLRange == \A x \in out.sets : /\ x.ttl - x.gap \in Lo(x.base)..Hi(x.base)
+                                 /\ x.base \in {s.e, s.nf} /\ x.ttl >= 1
+
+\* the caller's context is not part of the protocol: a write leads to the same state (cache,
+\* pending retries with their rungs and due seconds, dirty keys) whichever context it is given
+Ctx0 == CHOOSE c \in Ctxs : TRUE
+CtxFree ==
+  \A o \in {x \in OpsOf(s) : x.op \in {"put", "delete", "delcache"} /\ x.cx = Ctx0} :
+     \E r \in {StepOf(s, o).s} : \A c \in Ctxs \ {Ctx0} : StepOf(s, [o EXCEPT !.cx = c]).s = r
 
 SameTask(t, u) == t.seq = u.seq /\ t.node = u.node
 \* a failed removal is retried until it first succeeds and not again afterwards:
